@@ -36,6 +36,13 @@ def _is_factory_default(d):
   return type(d).__name__ == '_HAS_DEFAULT_FACTORY_CLASS'
 
 
+class MTagged:
+  """Model of a transitory TaggedValue: tags plus an optional value."""
+
+  def __init__(self, tags, has_value, value):
+    self.tags, self.has_value, self.value = set(tags), has_value, value
+
+
 class MNode:
   """Model of one Buildable."""
 
@@ -351,6 +358,16 @@ class Maker:
       return stubmod.NT(*[self(e) for e in d['nt']])
     if 'hostile' in d:
       return stubmod.Hostile()
+    if 'tv' in d:
+      tv = d['tv']
+      if self.side == 'impl':
+        import fiddle as fdl
+        kw = {}
+        if 'value' in tv:
+          kw['default'] = self(tv['value'])
+        return fdl.TaggedValue(tags=[stubmod.TAGS[t] for t in tv['tags']], **kw)
+      return MTagged(set(tv['tags']), 'value' in tv,
+                     self(tv['value']) if 'value' in tv else None)
     if 'node' in d:
       nd = d['node']
       args = [self(a) for a in nd.get('args', [])]
